@@ -232,6 +232,10 @@ def call (env : Env) (cfg : Config) : Call → M Unit
     match mime with
     | some m => if !mimetypes.contains m then throw .optionError
     | none => pure ()
+    -- `indent` must be `None` or a non-negative integer
+    match indent with
+    | some n => if n < 0 then throw .optionError
+    | none => pure ()
     newContent env cfg .preamble text le enc indent true true [(b!"mimetype", mime.map HVal.str)]
   | .metadata m enc fmt => do
     let j ← match m with
